@@ -1291,11 +1291,12 @@ func (r *Runtime) toIndex(v Value) int {
 	num := v.ToInteger()
 	if num >= 0 && num < maxInt {
 		if bits.UintSize == 32 && num >= math.MaxInt32 {
-			panic(r.newErrorf(r.getRangeError(), "Index %s overflows int", v.String()))
+			panic(r.newErrorf(r.getRangeError(), "Index %d overflows int", num))
 		}
 		return int(num)
 	}
-	panic(r.newErrorf(r.getRangeError(), "Invalid index %s", v.String()))
+	// do not format v itself: v.String() would run user code (toString/valueOf) a second time
+	panic(r.newErrorf(r.getRangeError(), "Invalid index %d", num))
 }
 
 func (r *Runtime) toBoolean(b bool) Value {
